@@ -68,7 +68,7 @@ def select(prop, t, sd):
         gs = [g for g in gs if not (g.features() & {'pred', 'assert', 'choice', 'ptrue'})]
     return gs
 
-BOUNDS = {'quick': 4, 'thorough': 6}
+BOUNDS = {'quick': 4, 'thorough': 5}
 
 def run_parser_property(prop, evals=None, N=None, filt=None, level_text='', job=None, extra=None, grammars=None, side_jobs=None):
     t0 = time.time(); t = tier(); sd = seed()
@@ -79,10 +79,13 @@ def run_parser_property(prop, evals=None, N=None, filt=None, level_text='', job=
         gs = [g for g in gs if re.search(os.environ['VERIF_ONLY'], g.name)]
     N = N or BOUNDS[t]
     opts = dict(evals=evals or [prop], validate=40 if t == 'quick' else 400, seed=sd)
-    # thorough tier: one token more for everything, two more for the curated micro-grammars
+    # thorough tier: one token more for the hand-written families; the generated families (product, pairs, symbol twins,
+    # random) keep the quick bound but are explored in full instead of a per-seed sample
     def bound(g):
         d = g.meta.get('bound_delta', 0)
-        if t == 'thorough' and N == BOUNDS['thorough']: return (N if g.meta.get('family') in ('curated', 'pratt') else N - 1) + d
+        if t == 'thorough' and N == BOUNDS['thorough']:
+            deep = g.meta.get('family') in ('curated', 'coverage', 'recovery', 'parts', 'zero-progress', 'pratt') and not g.name.endswith('_sym')
+            return (N if deep else N - 1) + d
         return N + d
     jobs = [(g, prop, bound(g), opts) for g in gs]
     results = []
@@ -259,7 +262,7 @@ def main(argv):
                 gs = [g for g in gs if g.meta.get('family') != 'coverage'] + cov[sd % 3::3]
             return gs
         from . import c15s
-        return run_parser_property(prop, job=props.c15_job, N={'quick': 3, 'thorough': 5}[tier()], grammars=gsel, side_jobs={'statelessness_side_condition': c15s.state_job},
+        return run_parser_property(prop, job=props.c15_job, N={'quick': 3, 'thorough': 4}[tier()], grammars=gsel, side_jobs={'statelessness_side_condition': c15s.state_job},
                                    extra=lambda rs: dict(differential_comparisons=sum(r.get('comparisons', 0) for r in rs),
                                                          permutations=sum(r.get('permutations', 0) for r in rs),
                                                          byte_identical_generated_code=sum(r.get('identical_outputs', 0) for r in rs)))
